@@ -1,5 +1,6 @@
-(* C20: readiness contract is preserved by every layer discipline and every stack;
-   transparent layers compose; listeners only observe. *)
+(* C20: the readiness contract is preserved by every layer discipline, every stack and every
+   client program; readiness errors surface exactly once; every issued request reaches the wrapped
+   service unchanged; pass-through layers compose; listeners only observe. *)
 From TR Require Import Lib.Base Model.Layers.
 
 Local Open Scope nat_scope.
@@ -99,7 +100,7 @@ Section Spec.
       { split.
         - eapply frame_trans; [exact Hf|]. eapply frame_trans; [exact Hf2|exact Hf3].
         - intros z Hz. apply Hback, Hback2, Hback3. exact Hz. }
-      destruct a2 as [i|r'|[|]]; cbn [fst snd]; first [exact Hgo|exact Hstop].
+      destruct a2 as [i|r'|[| |]]; cbn [fst snd]; first [exact Hgo|exact Hstop].
   Qed.
 
   (* k hedges on fresh clones of y0: no violation, no old instance touched *)
@@ -138,6 +139,7 @@ Arguments sp_call {T sub F}.
 Arguments sp_clone {T sub F}.
 
 (* ------------------------------------------------------------------------- *)
+
 (* the wrapped service satisfies the interface *)
 Fixpoint bad_calls (l : list lev) : nat :=
   match l with
@@ -165,11 +167,9 @@ Proof.
   - intros b x HI Hx. split; [|split].
     + unfold frame. cbn. split; [exact HI|]. split; [reflexivity|]. split; [auto|].
       intros y Hy Hne.
-      destruct (oracle b) as [|[| |] rest]; cbn; try reflexivity; apply updb_other; congruence.
+      destruct (answer b x); cbn; try reflexivity; apply updb_other; congruence.
     + auto.
-    + destruct (oracle b) as [|r rest]; cbn.
-      * exists RReady. split; [reflexivity|]. intros _. apply updb_same.
-      * exists r. split; [reflexivity|]. intros ->. apply updb_same.
+    + exists (answer b x). split; [reflexivity|]. intros ->. apply updb_same.
   - intros b x q HI Hx Hr. rewrite Hr. split; [|auto].
     unfold frame. cbn. split; [exact HI|]. split; [reflexivity|]. split; [auto|].
     intros y Hy Hne. apply updb_other. congruence.
@@ -286,8 +286,11 @@ Section Layer.
       + (* Retry k *)
         destruct (swap_prefix t y q HI Hy Hr) as (y' & t1 & t2 & a2 & E1 & E2 & P1 & P2 & P3 & P4 & P5 & P6 & P7).
         rewrite E1, E2.
-        destruct (match a2 with ADone true => true | _ => false end).
-        { cbn [fst snd]. apply layer_frame; auto. right. exists y'. auto. }
+        assert (Hstop : frame layer_iface (l, t) (mkL (updn (imap l) x y') (lfresh l), t2) (eq x) /\
+                        (forall z, ivalid layer_iface (mkL (updn (imap l) x y') (lfresh l), t2) z ->
+                                   ivalid layer_iface (l, t) z)).
+        { apply layer_frame; auto. right. exists y'. auto. }
+        destruct (cres_of a2); [|exact Hstop|exact Hstop].
         destruct (attempts_spec sub F Hs fuel k t2 y q P1 (P3 y Hy)) as (Hf & Hback).
         destruct (attempts sub fuel k t2 y q) as [t3 e] eqn:E3. cbn [fst snd] in *.
         destruct Hf as (A1 & A2 & A3 & A4).
@@ -309,9 +312,11 @@ Section Layer.
         destruct (sp_clone Hs t1 y A1 (A3 y Hy)) as (Hf2 & z & Hz & Hzfresh & Hzv & Hback2).
         destruct (sub t1 (OClone y)) as [t2 a'] eqn:E2. cbn [fst snd] in *. subst a'.
         pose proof Hf2 as (B1 & B2 & B3 & B4).
-        destruct (match a with ADone true => true | _ => false end).
-        { cbn [fst snd]. apply layer_frame; auto; try congruence.
+        assert (Hstop : frame layer_iface (l, t) (l, t2) (eq x) /\
+                        (forall w, ivalid layer_iface (l, t2) w -> ivalid layer_iface (l, t) w)).
+        { apply layer_frame; auto; try congruence.
           intros w Hw Hne. rewrite B4; auto. }
+        destruct (cres_of a); [|exact Hstop|exact Hstop].
         destruct (attempts_spec sub F Hs fuel k t2 z q B1 Hzv) as (Hf3 & Hback3).
         destruct (attempts sub fuel k t2 z q) as [t3 e] eqn:E3. cbn [fst snd] in *.
         destruct Hf3 as (C1 & C2 & C3 & C4).
@@ -342,10 +347,6 @@ End Layer.
 
 (* ------------------------------------------------------------------------- *)
 (* stacks *)
-Definition execp (fuel : nat) (ds : list disc) (t : list lstate * base) (o : op)
-  : (list lstate * base) * ans :=
-  let '(ls2, b2, a) := exec fuel ds (fst t) (snd t) o in ((ls2, b2), a).
-
 (* interface of a stack state, by recursion on the stack *)
 Fixpoint stack_iface (fuel : nat) (ds : list disc) : iface (list lstate * base) :=
   match ds with
@@ -394,6 +395,7 @@ Proof.
 Qed.
 
 (* ------------------------------------------------------------------------- *)
+(* ------------------------------------------------------------------------- *)
 (* a contract-respecting client of any stack never makes the wrapped service see a violation *)
 Lemma istack_facts fuel ds : forall t,
   iI (stack_iface fuel ds) t ->
@@ -406,58 +408,60 @@ Proof.
     apply (IH (ls', b) HI).
 Qed.
 
-Lemma init_stack_inv fuel ds orc :
-  iI (stack_iface fuel ds) (map (fun _ => init_l) ds, init_base orc) /\
-  ivalid (stack_iface fuel ds) (map (fun _ => init_l) ds, init_base orc) 0.
+Definition base_ok (b : base) : Prop := violations b = bad_calls (blog b) /\ 1 <= fresh b.
+
+Lemma init_stack_inv fuel ds b : base_ok b ->
+  iI (stack_iface fuel ds) (init_stack ds b) /\ ivalid (stack_iface fuel ds) (init_stack ds b) 0.
 Proof.
-  induction ds as [|d ds' IH]; cbn.
-  - split; [reflexivity|lia].
+  intros [Hb Hf]. unfold init_stack. induction ds as [|d ds' IH]; cbn.
+  - split; [exact Hb|lia].
   - destruct IH as [IH1 IH2]. split; [|lia]. split; [exact IH1|]. split.
     + intros x Hx. assert (x = 0) by lia. subst. cbn. exact IH2.
     + intros x y Hx Hy _. lia.
 Qed.
 
-Lemma client_cons fuel ds ls b q rest :
-  client fuel ds ls b (q :: rest) =
-  let '(t1, r) := poll_until (execp fuel ds) fuel (ls, b) 0 in
+Lemma init_base_ok orc : base_ok (init_base orc).
+Proof. split; cbn; [reflexivity|lia]. Qed.
+Lemma init_base_p_ok po : base_ok (init_base_p po).
+Proof. split; cbn; [reflexivity|lia]. Qed.
+
+Lemma client_cons cf fuel ds t q rest :
+  client cf fuel ds t (q :: rest) =
+  let '(t1, r) := poll_until (execp fuel ds) cf t 0 in
   match r with
   | RReady =>
     let '(t2, a) := execp fuel ds t1 (OCall 0 q) in
-    let '(ls3, b3, out) := client fuel ds (fst t2) (snd t2) rest in
-    (ls3, b3, (match a with ADone true => 2 | _ => 0 end)%Z :: out)
-  | RErr => let '(ls3, b3, out) := client fuel ds (fst t1) (snd t1) rest in (ls3, b3, 1%Z :: out)
-  | RPending => let '(ls3, b3, out) := client fuel ds (fst t1) (snd t1) rest in (ls3, b3, 3%Z :: out)
+    let '(t3, out) := client cf fuel ds t2 rest in (t3, code_of_ans a :: out)
+  | _ => let '(t3, out) := client cf fuel ds t1 rest in (t3, code_of_rres r :: out)
   end.
 Proof. reflexivity. Qed.
 
-Lemma client_spec fuel ds : forall reqs t,
+Lemma client_spec cf fuel ds : forall reqs t,
   iI (stack_iface fuel ds) t -> ivalid (stack_iface fuel ds) t 0 ->
-  let r := client fuel ds (fst t) (snd t) reqs in
-  iI (stack_iface fuel ds) (fst (fst r), snd (fst r)) /\
-  iviol (stack_iface fuel ds) (fst (fst r), snd (fst r)) = iviol (stack_iface fuel ds) t.
+  let r := client cf fuel ds t reqs in
+  iI (stack_iface fuel ds) (fst r) /\
+  iviol (stack_iface fuel ds) (fst r) = iviol (stack_iface fuel ds) t.
 Proof.
   pose proof (stack_spec fuel ds) as Hs.
-  induction reqs as [|q rest IH]; intros [ls b] HI Hv; cbn [fst snd]; [cbn [client]|].
+  induction reqs as [|q rest IH]; intros t HI Hv; [cbn [client fst]|].
   - split; [exact HI|reflexivity].
   - rewrite client_cons.
-    destruct (poll_until_spec (execp fuel ds) (stack_iface fuel ds) Hs fuel (ls, b) 0 HI Hv)
+    destruct (poll_until_spec (execp fuel ds) (stack_iface fuel ds) Hs cf t 0 HI Hv)
       as (Hf & Hback & Hrdy).
-    destruct (poll_until (execp fuel ds) fuel (ls, b) 0) as [t1 r] eqn:E. cbn [fst snd] in *.
+    destruct (poll_until (execp fuel ds) cf t 0) as [t1 r] eqn:E. cbn [fst snd] in *.
     pose proof Hf as (A1 & A2 & A3 & A4).
-    destruct r.
-    + destruct (sp_call Hs t1 0 q A1 (A3 0 Hv) (Hrdy eq_refl)) as (Hf2 & Hback2).
-      destruct (execp fuel ds t1 (OCall 0 q)) as [t2 a] eqn:E2. cbn [fst snd] in *.
-      pose proof Hf2 as (B1 & B2 & B3 & B4).
-      specialize (IH t2 B1 (B3 0 (A3 0 Hv))).
-      destruct t2 as [ls2 b2]. cbn [fst snd] in *.
-      destruct (client fuel ds ls2 b2 rest) as [[ls3 b3] out]. cbn [fst snd] in *.
-      destruct IH as [I1 I2]. split; [exact I1|congruence].
-    + specialize (IH t1 A1 (A3 0 Hv)). destruct t1 as [ls1 b1]. cbn [fst snd] in *.
-      destruct (client fuel ds ls1 b1 rest) as [[ls3 b3] out]. cbn [fst snd] in *.
-      destruct IH as [I1 I2]. split; [exact I1|congruence].
-    + specialize (IH t1 A1 (A3 0 Hv)). destruct t1 as [ls1 b1]. cbn [fst snd] in *.
-      destruct (client fuel ds ls1 b1 rest) as [[ls3 b3] out]. cbn [fst snd] in *.
-      destruct IH as [I1 I2]. split; [exact I1|congruence].
+    assert (Hskip : let r' := let '(t3, out) := client cf fuel ds t1 rest in (t3, code_of_rres r :: out) in
+                    iI (stack_iface fuel ds) (fst r') /\
+                    iviol (stack_iface fuel ds) (fst r') = iviol (stack_iface fuel ds) t).
+    { specialize (IH t1 A1 (A3 0 Hv)). destruct (client cf fuel ds t1 rest) as [t3 out].
+      cbn [fst snd] in *. destruct IH as [I1 I2]. split; [exact I1|congruence]. }
+    destruct r; [|exact Hskip|exact Hskip].
+    destruct (sp_call Hs t1 0 q A1 (A3 0 Hv) (Hrdy eq_refl)) as (Hf2 & Hback2).
+    destruct (execp fuel ds t1 (OCall 0 q)) as [t2 a] eqn:E2. cbn [fst snd] in *.
+    pose proof Hf2 as (B1 & B2 & B3 & B4).
+    specialize (IH t2 B1 (B3 0 (A3 0 Hv))).
+    destruct (client cf fuel ds t2 rest) as [t3 out]. cbn [fst snd] in *.
+    destruct IH as [I1 I2]. split; [exact I1|congruence].
 Qed.
 
 Definition all_calls_ready (l : list lev) : Prop :=
@@ -472,69 +476,1106 @@ Proof.
   - constructor; [exact I|apply IH; exact H].
 Qed.
 
-(* C20 (readiness): every stack of layers, every request list, every readiness script *)
-Theorem stack_honours_readiness fuel ds orc reqs :
-  let b := snd (fst (client fuel ds (map (fun _ => init_l) ds) (init_base orc) reqs)) in
-  violations b = 0 /\ all_calls_ready (blog b).
+Lemma no_violation_from fuel ds t t' :
+  iI (stack_iface fuel ds) t -> iI (stack_iface fuel ds) t' ->
+  iviol (stack_iface fuel ds) t' = iviol (stack_iface fuel ds) t ->
+  violations (snd t) = 0 ->
+  violations (snd t') = 0 /\ all_calls_ready (blog (snd t')).
 Proof.
-  destruct (init_stack_inv fuel ds orc) as [HI Hv].
-  pose proof (client_spec fuel ds reqs (map (fun _ => init_l) ds, init_base orc) HI Hv) as Hc.
-  cbn [fst snd] in Hc. cbn zeta.
-  destruct (client fuel ds (map (fun _ => init_l) ds) (init_base orc) reqs) as [[ls3 b3] out].
-  cbn [fst snd] in *. destruct Hc as [I1 I2].
-  destruct (istack_facts fuel ds _ I1) as [F1 F2]. cbn [snd] in F1, F2.
-  destruct (istack_facts fuel ds _ HI) as [G1 G2]. cbn [snd] in G1, G2.
-  assert (Hz : violations b3 = 0) by (rewrite <- F1, I2, G1; reflexivity).
+  intros HI HI' Hv H0.
+  destruct (istack_facts fuel ds _ HI') as [F1 F2].
+  destruct (istack_facts fuel ds _ HI) as [G1 G2].
+  assert (Hz : violations (snd t') = 0) by congruence.
   split; [exact Hz|]. apply bad_calls_zero. rewrite <- F2. exact Hz.
 Qed.
 
-(* readiness answers surface unchanged: the answer a layer (any stack) gives to poll_ready is
-   the wrapped service's answer *)
+(* C20 (readiness), sequential client: every stack of layers, every request list, every
+   readiness script (shared or per instance), every patience of the client, every fuel *)
+Theorem stack_honours_readiness cf fuel ds b0 reqs :
+  base_ok b0 -> violations b0 = 0 ->
+  let b := snd (fst (client cf fuel ds (init_stack ds b0) reqs)) in
+  violations b = 0 /\ all_calls_ready (blog b).
+Proof.
+  intros Hb H0.
+  destruct (init_stack_inv fuel ds b0 Hb) as [HI Hv].
+  pose proof (client_spec cf fuel ds reqs (init_stack ds b0) HI Hv) as Hc.
+  cbn zeta in *. destruct Hc as [I1 I2].
+  apply (no_violation_from fuel ds (init_stack ds b0)); auto.
+Qed.
+
+(* ------------------------------------------------------------------------- *)
+(* ANY client program (any number of handles, clones of the stack taken at any time, requests
+   issued on any handle in any order, handles polled again although ready): the interpreter's
+   bookkeeping [crdy] is sound, so that it only ever calls handles that are ready, and the wrapped
+   service never sees a violation *)
+Section Programs.
+  Context {T : Type} (sub : T -> op -> T * ans) (F : iface T) (Hs : spec sub F) (cf : nat).
+
+  Definition pinv (p : T * cst) : Prop :=
+    iI F (fst p) /\
+    (forall x, In x (hs (snd p)) -> ivalid F (fst p) x) /\
+    (forall x, crdy (snd p) x = true -> ivalid F (fst p) x /\ irdy F (fst p) x = true).
+
+  Lemma cstep_inv p o : pinv p ->
+    pinv (fst (cstep sub cf p o)) /\ iviol F (fst (fst (cstep sub cf p o))) = iviol F (fst p).
+  Proof.
+    destruct p as [t c]. intros (HI & Hh & Hr). cbn [fst snd] in *.
+    assert (Hsame : pinv (t, c) /\ iviol F (fst (t, c)) = iviol F t)
+      by (split; [repeat split; auto; apply Hr; auto|reflexivity]).
+    destruct o as [h|h|h|h|]; cbn [cstep fst snd]; try exact Hsame.
+    - (* poll *)
+      destruct (nth_error (hs c) h) as [x|] eqn:En; [|exact Hsame].
+      assert (Hx : ivalid F t x) by (apply Hh; eapply nth_error_In; eauto).
+      destruct (poll_until_spec sub F Hs cf t x HI Hx) as (Hf & Hback & Hrdy).
+      destruct (poll_until sub cf t x) as [t1 r] eqn:E. cbn [fst snd] in *.
+      destruct Hf as (A1 & A2 & A3 & A4).
+      split; [|exact A2]. unfold pinv. cbn [fst snd hs crdy]. split; [exact A1|]. split; [intros y Hy; apply A3, Hh, Hy|].
+      intros y Hy. destruct (Nat.eq_dec y x) as [->|Hne].
+      + rewrite updb_same in Hy. split; [apply A3, Hx|]. apply Hrdy. destruct r; [reflexivity|discriminate|discriminate].
+      + rewrite updb_other in Hy by exact Hne. destruct (Hr y Hy) as [V R].
+        split; [apply A3, V|]. rewrite A4; auto.
+    - (* call *)
+      destruct (nth_error (hs c) h) as [x|] eqn:En; [|exact Hsame].
+      destruct (crdy c x) eqn:Ec; [|exact Hsame].
+      destruct (Hr x Ec) as [Hx Hrx].
+      destruct (sp_call Hs t x (Z.of_nat (S (nreq c))) HI Hx Hrx) as (Hf & Hback).
+      destruct (sub t (OCall x (Z.of_nat (S (nreq c))))) as [t1 a] eqn:E. cbn [fst snd] in *.
+      destruct Hf as (A1 & A2 & A3 & A4).
+      split; [|exact A2]. unfold pinv. cbn [fst snd hs crdy]. split; [exact A1|]. split; [intros y Hy; apply A3, Hh, Hy|].
+      intros y Hy. destruct (Nat.eq_dec y x) as [->|Hne].
+      + rewrite updb_same in Hy. discriminate.
+      + rewrite updb_other in Hy by exact Hne. destruct (Hr y Hy) as [V R].
+        split; [apply A3, V|]. rewrite A4; auto.
+    - (* clone *)
+      destruct (nth_error (hs c) h) as [x|] eqn:En; [|exact Hsame].
+      assert (Hx : ivalid F t x) by (apply Hh; eapply nth_error_In; eauto).
+      destruct (sp_clone Hs t x HI Hx) as (Hf & x' & Hx' & Hfresh & Hx'v & Hback).
+      destruct (sub t (OClone x)) as [t1 a] eqn:E. cbn [fst snd] in *. subst a.
+      destruct Hf as (A1 & A2 & A3 & A4). cbn [fst snd].
+      split; [|exact A2]. unfold pinv. cbn [fst snd hs crdy]. split; [exact A1|]. split.
+      + intros y Hy. apply in_app_or in Hy. destruct Hy as [Hy|[<-|[]]]; [apply A3, Hh, Hy|exact Hx'v].
+      + intros y Hy. destruct (Nat.eq_dec y x') as [->|Hne].
+        * rewrite updb_same in Hy. discriminate.
+        * rewrite updb_other in Hy by exact Hne. destruct (Hr y Hy) as [V R].
+          split; [apply A3, V|]. rewrite A4; auto.
+    - (* gate *)
+      destruct (nth_error (hs c) h); exact Hsame.
+  Qed.
+
+  Lemma run_cops_inv : forall os p, pinv p ->
+    pinv (fst (run_cops sub cf p os)) /\ iviol F (fst (fst (run_cops sub cf p os))) = iviol F (fst p).
+  Proof.
+    induction os as [|o rest IH]; intros p Hp; cbn [run_cops].
+    - split; [exact Hp|reflexivity].
+    - destruct (cstep_inv p o Hp) as [H1 H2].
+      destruct (cstep sub cf p o) as [p1 z]. cbn [fst] in *.
+      destruct (IH p1 H1) as [H3 H4].
+      destruct (run_cops sub cf p1 rest) as [p2 zs]. cbn [fst] in *.
+      split; [exact H3|congruence].
+  Qed.
+End Programs.
+
+Theorem any_program_honours_readiness cf fuel ds b0 (os : list cop) :
+  base_ok b0 -> violations b0 = 0 ->
+  let b := snd (fst (fst (run_cops (execp fuel ds) cf (init_stack ds b0, init_c) os))) in
+  violations b = 0 /\ all_calls_ready (blog b).
+Proof.
+  intros Hb H0.
+  destruct (init_stack_inv fuel ds b0 Hb) as [HI Hv].
+  assert (Hp : pinv (stack_iface fuel ds) (init_stack ds b0, init_c)).
+  { split; [exact HI|]. split.
+    - intros x [<-|[]]. exact Hv.
+    - intros x Hx. discriminate. }
+  destruct (run_cops_inv (execp fuel ds) (stack_iface fuel ds) (stack_spec fuel ds) cf os _ Hp) as [(I1 & _) I2].
+  cbn [fst snd] in I2. cbn zeta.
+  apply (no_violation_from fuel ds (init_stack ds b0)); auto.
+Qed.
+
+(* ------------------------------------------------------------------------- *)
+(* readiness answers (Ready, Pending, Err) surface unchanged: the answer any stack gives to
+   poll_ready is the wrapped service's answer for the wrapped instance the handle stands for *)
+Fixpoint resolve (ls : list lstate) (x : nat) : nat :=
+  match ls with
+  | [] => x
+  | l :: ls' => resolve ls' (imap l x)
+  end.
+
 Lemma poll_passes_through fuel ds : forall ls b x,
   length ls = length ds ->
-  snd (execp fuel ds (ls, b) (OPoll x)) = ARes (match oracle b with r :: _ => r | [] => RReady end).
+  snd (execp fuel ds (ls, b) (OPoll x)) = ARes (answer b (resolve ls x)).
 Proof.
   induction ds as [|d ds' IH]; intros ls b x Hlen; unfold execp; cbn [exec fst snd].
-  - destruct ls; reflexivity.
-  - destruct ls as [|l ls']; [discriminate|]. cbn [layer_exec fst snd].
+  - destruct ls; [reflexivity|discriminate].
+  - destruct ls as [|l ls']; [discriminate|]. cbn [layer_exec fst snd resolve].
     specialize (IH ls' b (imap l x) ltac:(cbn in Hlen; lia)). unfold execp in IH. cbn [fst snd] in IH.
     destruct (exec fuel ds' ls' b (OPoll (imap l x))) as [[ls2 b2] a]. cbn [fst snd] in *. exact IH.
 Qed.
 
-(* (B) transparency composes *)
-Theorem stack_transparent (stack : list layer_sem) :
-  Forall transparent stack -> forall inner req, stack_sem stack inner req = inner req.
+(* ------------------------------------------------------------------------- *)
+(* Counting what reaches the wrapped service.
+   [nerrs]: readiness errors it returned; [ncalls q]: calls it received for request q. *)
+Fixpoint nerrs (l : list lev) : nat :=
+  match l with
+  | LPoll _ RErr :: r => S (nerrs r)
+  | _ :: r => nerrs r
+  | [] => O
+  end.
+
+Fixpoint ncalls (q : Z) (l : list lev) : nat :=
+  match l with
+  | LCall _ q' _ :: r => (if Z.eqb q' q then 1 else 0) + ncalls q r
+  | _ :: r => ncalls q r
+  | [] => O
+  end.
+
+Definition is_err (r : rres) : nat := match r with RErr => 1 | _ => 0 end.
+Definition is_crdy (c : cres) : nat := match c with CRdy => 1 | _ => 0 end.
+Definition no_hedge (d : disc) : Prop := match d with Hedge _ => False | _ => True end.
+Definition plain_disc (d : disc) : Prop := match d with Swap | Direct => True | _ => False end.
+
+Section Counting.
+  Context {T : Type} (sub : T -> op -> T * ans).
+  (* ne: readiness errors returned so far; nc q: calls for request q so far *)
+  Context (ne : T -> nat) (nc : Z -> T -> nat).
+
+  (* [plain]: below, every request is forwarded exactly once (no retrying / hedging layer) *)
+  Record cspec (hedgefree plain : bool) : Prop := {
+    cs_poll : forall t x, exists r, snd (sub t (OPoll x)) = ARes r /\
+      (ne (fst (sub t (OPoll x))) = ne t + is_err r) /\
+      (forall q, nc q (fst (sub t (OPoll x))) = nc q t);
+    cs_clone : forall t x, (exists y, snd (sub t (OClone x)) = AId y) /\
+      ne (fst (sub t (OClone x))) = ne t /\
+      (forall q, nc q (fst (sub t (OClone x))) = nc q t);
+    cs_call : forall t x q, exists c, snd (sub t (OCall x q)) = ADone c /\
+      (hedgefree = true -> ne (fst (sub t (OCall x q))) = ne t + is_crdy c) /\
+      ne t <= ne (fst (sub t (OCall x q))) /\
+      nc q t + 1 <= nc q (fst (sub t (OCall x q))) /\
+      (plain = true -> nc q (fst (sub t (OCall x q))) = nc q t + 1) /\
+      (forall q', q' <> q -> nc q' (fst (sub t (OCall x q))) = nc q' t)
+  }.
+
+  Context (hf pl : bool) (Hc : cspec hf pl).
+
+  Lemma poll_until_count fuel : forall t y,
+    ne (fst (poll_until sub fuel t y)) = ne t + is_err (snd (poll_until sub fuel t y)) /\
+    (forall q, nc q (fst (poll_until sub fuel t y)) = nc q t).
+  Proof.
+    induction fuel as [|f IH]; intros t y; cbn [poll_until].
+    - cbn. split; [lia|auto].
+    - destruct (cs_poll _ _ Hc t y) as (r & Hr & He & Hn).
+      destruct (sub t (OPoll y)) as [t1 a] eqn:E. cbn [fst snd] in *. subst a.
+      destruct r; cbn [fst snd is_err] in *; try (split; [lia|exact Hn]).
+      destruct (IH t1 y) as [I1 I2]. split; [lia|]. intros q. rewrite I2. apply Hn.
+  Qed.
+
+  Lemma attempts_count fuel k : forall t y q,
+    (hf = true -> ne (fst (attempts sub fuel k t y q)) = ne t + is_crdy (snd (attempts sub fuel k t y q))) /\
+    ne t <= ne (fst (attempts sub fuel k t y q)) /\
+    nc q t <= nc q (fst (attempts sub fuel k t y q)) /\
+    (forall q', q' <> q -> nc q' (fst (attempts sub fuel k t y q)) = nc q' t).
+  Proof.
+    induction k as [|k IH]; intros t y q; cbn [attempts].
+    - cbn. repeat split; auto; lia.
+    - destruct (poll_until_count fuel t y) as [P1 P2].
+      destruct (poll_until sub fuel t y) as [t1 r] eqn:E. cbn [fst snd] in *.
+      destruct r; cbn [fst snd is_err is_crdy] in *;
+        try (repeat split; [intros; lia|lia|rewrite P2; lia|intros; apply P2]).
+      destruct (cs_call _ _ Hc t1 y q) as (c & Hcc & C1 & C2 & C3 & C4 & C5).
+      destruct (sub t1 (OCall y q)) as [t2 a] eqn:E2. cbn [fst snd] in *. subst a.
+      destruct (IH t2 y q) as (I1 & I2 & I3 & I4).
+      destruct c; cbn [fst snd is_crdy] in *.
+      + split; [intros H; rewrite (I1 H), (C1 H); cbn; lia|]. split; [lia|]. split; [rewrite <- (P2 q); lia|].
+        intros q' Hq. rewrite (I4 q' Hq), (C5 q' Hq). apply P2.
+      + split; [intros H; rewrite (C1 H); cbn; lia|]. split; [lia|]. split; [rewrite <- (P2 q); lia|].
+        intros q' Hq. rewrite (C5 q' Hq). apply P2.
+      + split; [intros H; rewrite (C1 H); cbn; lia|]. split; [lia|]. split; [rewrite <- (P2 q); lia|].
+        intros q' Hq. rewrite (C5 q' Hq). apply P2.
+  Qed.
+
+  Lemma hedges_count fuel k : forall t y0 q,
+    ne t <= ne (hedges sub fuel k t y0 q) /\
+    nc q t <= nc q (hedges sub fuel k t y0 q) /\
+    (forall q', q' <> q -> nc q' (hedges sub fuel k t y0 q) = nc q' t).
+  Proof.
+    induction k as [|k IH]; intros t y0 q; cbn [hedges].
+    - repeat split; auto.
+    - destruct (cs_clone _ _ Hc t y0) as ((h & Hh) & K1 & K2).
+      destruct (sub t (OClone y0)) as [t1 a] eqn:E. cbn [fst snd] in *. subst a.
+      destruct (poll_until_count fuel t1 h) as [P1 P2].
+      destruct (poll_until sub fuel t1 h) as [t2 r] eqn:E2. cbn [fst snd] in *.
+      destruct r.
+      + destruct (cs_call _ _ Hc t2 h q) as (c & Hcc & C1 & C2 & C3 & C4 & C5).
+        destruct (sub t2 (OCall h q)) as [t3 a] eqn:E3. cbn [fst snd] in *.
+        destruct (IH t3 y0 q) as (I1 & I2 & I3).
+        split; [lia|]. split; [rewrite <- (K2 q), <- (P2 q); lia|].
+        intros q' Hq. rewrite (I3 q' Hq), (C5 q' Hq), P2. apply K2.
+      + destruct (IH t2 y0 q) as (I1 & I2 & I3).
+        split; [lia|]. split; [rewrite <- (K2 q), <- (P2 q); lia|].
+        intros q' Hq. rewrite (I3 q' Hq), P2. apply K2.
+      + destruct (IH t2 y0 q) as (I1 & I2 & I3).
+        split; [lia|]. split; [rewrite <- (K2 q), <- (P2 q); lia|].
+        intros q' Hq. rewrite (I3 q' Hq), P2. apply K2.
+  Qed.
+
+End Counting.
+
+Section LayerCounting.
+  Context {T : Type} (sub : T -> op -> T * ans) (ne : T -> nat) (nc : Z -> T -> nat).
+  Context (hf pl : bool) (Hc : cspec sub ne nc hf pl).
+  Context (fuel : nat) (d : disc).
+  Context (Hhf : hf = true -> no_hedge d) (Hpl : pl = true -> plain_disc d).
+
+  Lemma layer_cspec : cspec (lsub sub fuel d) (fun p => ne (snd p)) (fun q p => nc q (snd p)) hf pl.
+  Proof.
+    constructor.
+    - intros [l t] x. unfold lsub. cbn [fst snd layer_exec].
+      destruct (cs_poll _ _ _ _ _ Hc t (imap l x)) as (r & Hr & He & Hn).
+      destruct (sub t (OPoll (imap l x))) as [t1 a]. cbn [fst snd] in *. exists r. auto.
+    - intros [l t] x. unfold lsub. cbn [fst snd layer_exec].
+      destruct (cs_clone _ _ _ _ _ Hc t (imap l x)) as ((y & Hy) & K1 & K2).
+      destruct (sub t (OClone (imap l x))) as [t1 a]. cbn [fst snd] in *. subst a. cbn [fst snd].
+      split; [eexists; reflexivity|auto].
+    - intros [l t] x q. unfold lsub. cbn [fst snd layer_exec].
+      set (y := imap l x).
+      destruct d as [| |k|k|k].
+      + (* Swap *)
+        destruct (cs_clone _ _ _ _ _ Hc t y) as ((y' & Hy) & K1 & K2).
+        destruct (sub t (OClone y)) as [t1 a]. cbn [fst snd] in *. subst a.
+        destruct (cs_call _ _ _ _ _ Hc t1 y q) as (c & Hcc & C1 & C2 & C3 & C4 & C5).
+        destruct (sub t1 (OCall y q)) as [t2 a]. cbn [fst snd] in *. subst a. cbn [cres_of fst snd].
+        exists c. split; [reflexivity|]. rewrite <- K1, <- (K2 q).
+        split; [exact C1|]. split; [exact C2|]. split; [exact C3|]. split; [exact C4|].
+        intros q' Hq. rewrite (C5 q' Hq). apply K2.
+      + (* Direct *)
+        destruct (cs_call _ _ _ _ _ Hc t y q) as (c & Hcc & C1 & C2 & C3 & C4 & C5).
+        destruct (sub t (OCall y q)) as [t1 a]. cbn [fst snd] in *. subst a. cbn [cres_of fst snd].
+        exists c. auto 10.
+      + (* Retry *)
+        destruct (cs_clone _ _ _ _ _ Hc t y) as ((y' & Hy) & K1 & K2).
+        destruct (sub t (OClone y)) as [t1 a]. cbn [fst snd] in *. subst a.
+        destruct (cs_call _ _ _ _ _ Hc t1 y q) as (c & Hcc & C1 & C2 & C3 & C4 & C5).
+        destruct (sub t1 (OCall y q)) as [t2 a]. cbn [fst snd] in *. subst a. cbn [cres_of].
+        assert (Hnp : pl = true -> False) by (intros H; apply Hpl in H; exact H).
+        destruct c; cbn [fst snd is_crdy] in *.
+        * destruct (attempts_count sub ne nc hf pl Hc fuel k t2 y q) as (I1 & I2 & I3 & I4).
+          destruct (attempts sub fuel k t2 y q) as [t3 e]. cbn [fst snd] in *.
+          exists e. split; [reflexivity|]. rewrite <- K1, <- (K2 q).
+          split; [intros H; rewrite (I1 H), (C1 H); lia|]. split; [lia|]. split; [lia|].
+          split; [intros H; destruct (Hnp H)|].
+          intros q' Hq. rewrite (I4 q' Hq), (C5 q' Hq). apply K2.
+        * exists CRdy. split; [reflexivity|]. rewrite <- K1, <- (K2 q).
+          split; [exact C1|]. split; [exact C2|]. split; [exact C3|]. split; [intros H; destruct (Hnp H)|].
+          intros q' Hq. rewrite (C5 q' Hq). apply K2.
+        * exists CHang. split; [reflexivity|]. rewrite <- K1, <- (K2 q).
+          split; [exact C1|]. split; [exact C2|]. split; [exact C3|]. split; [intros H; destruct (Hnp H)|].
+          intros q' Hq. rewrite (C5 q' Hq). apply K2.
+      + (* Hedge *)
+        destruct (cs_clone _ _ _ _ _ Hc t y) as ((y' & Hy) & K1 & K2).
+        destruct (sub t (OClone y)) as [t1 a]. cbn [fst snd] in *. subst a.
+        destruct (cs_call _ _ _ _ _ Hc t1 y q) as (c & Hcc & C1 & C2 & C3 & C4 & C5).
+        destruct (sub t1 (OCall y q)) as [t2 a]. cbn [fst snd] in *. subst a.
+        destruct (hedges_count sub ne nc hf pl Hc fuel k t2 y' q) as (I1 & I2 & I3). cbn [fst snd].
+        exists COk. split; [reflexivity|]. rewrite <- K1, <- (K2 q).
+        split; [intros H; destruct (Hhf H)|]. split; [lia|]. split; [lia|].
+        split; [intros H; apply Hpl in H; destruct H|].
+        intros q' Hq. rewrite (I3 q' Hq), (C5 q' Hq). apply K2.
+      + (* Reconnect *)
+        destruct (cs_call _ _ _ _ _ Hc t y q) as (c & Hcc & C1 & C2 & C3 & C4 & C5).
+        destruct (sub t (OCall y q)) as [t1 a]. cbn [fst snd] in *. subst a.
+        destruct (cs_clone _ _ _ _ _ Hc t1 y) as ((z & Hz) & K1 & K2).
+        destruct (sub t1 (OClone y)) as [t2 a]. cbn [fst snd] in *. subst a. cbn [cres_of].
+        assert (Hnp : pl = true -> False) by (intros H; apply Hpl in H; exact H).
+        destruct c; cbn [fst snd is_crdy] in *.
+        * destruct (attempts_count sub ne nc hf pl Hc fuel k t2 z q) as (I1 & I2 & I3 & I4).
+          destruct (attempts sub fuel k t2 z q) as [t3 e]. cbn [fst snd] in *.
+          exists e. split; [reflexivity|].
+          split; [intros H; rewrite (I1 H), K1, (C1 H); lia|]. split; [lia|].
+          split; [rewrite (K2 q) in I3; lia|].
+          split; [intros H; destruct (Hnp H)|].
+          intros q' Hq. rewrite (I4 q' Hq), K2. apply (C5 q' Hq).
+        * exists CRdy. split; [reflexivity|]. rewrite K1, (K2 q).
+          split; [exact C1|]. split; [exact C2|]. split; [exact C3|]. split; [intros H; destruct (Hnp H)|].
+          intros q' Hq. rewrite K2. apply (C5 q' Hq).
+        * exists CHang. split; [reflexivity|]. rewrite K1, (K2 q).
+          split; [exact C1|]. split; [exact C2|]. split; [exact C3|]. split; [intros H; destruct (Hnp H)|].
+          intros q' Hq. rewrite K2. apply (C5 q' Hq).
+  Qed.
+End LayerCounting.
+
+Lemma execp_cons fuel d ds' l ls' b o :
+  execp fuel (d :: ds') (l :: ls', b) o =
+  let '(p', a) := lsub (execp fuel ds') fuel d (l, (ls', b)) o in
+  ((fst p' :: fst (snd p'), snd (snd p')), a).
 Proof.
-  induction 1 as [|L rest HL Hrest IH]; intros inner req; cbn; [reflexivity|].
-  rewrite HL. apply IH.
+  unfold execp at 1. cbn [exec fst snd]. unfold lsub. cbn [fst snd].
+  match goal with |- context [layer_exec ?s fuel d l (ls', b) o] =>
+    replace s with (execp fuel ds') by reflexivity end.
+  destruct (layer_exec (execp fuel ds') fuel d l (ls', b) o) as [[l' t'] a]. reflexivity.
 Qed.
 
-Lemma pass_through_transparent : transparent pass_through.
-Proof. intros inner req. reflexivity. Qed.
+Lemma execp_nil fuel ds b o : execp fuel ds ([], b) o = (([], fst (base_exec b o)), snd (base_exec b o)).
+Proof. unfold execp. destruct ds; cbn [exec fst snd]; destruct (base_exec b o); reflexivity. Qed.
 
-(* (C) listeners only observe *)
-Theorem listeners_do_not_change_outcome events out ls1 ls2 :
-  fst (run_with_listeners events out ls1) = fst (run_with_listeners events out ls2).
-Proof. reflexivity. Qed.
+Lemma execp_base fuel ls b o : execp fuel [] (ls, b) o = ((ls, fst (base_exec b o)), snd (base_exec b o)).
+Proof. unfold execp. cbn [exec fst snd]. destruct ls; destruct (base_exec b o); reflexivity. Qed.
 
-Theorem every_listener_gets_every_event ls ev :
-  length (emit ls ev) = length ls /\
-  forall i l, nth_error ls i = Some l -> nth_error (emit ls ev) i = Some (l ev).
+Definition sne (t : list lstate * base) : nat := nerrs (blog (snd t)).
+Definition snc (q : Z) (t : list lstate * base) : nat := ncalls q (blog (snd t)).
+
+Lemma base_cspec : cspec base_exec (fun b => nerrs (blog b)) (fun q b => ncalls q (blog b)) true true.
 Proof.
-  induction ls as [|l0 rest IH]; cbn.
-  - split; [reflexivity|]. intros i l H. destruct i; discriminate.
-  - destruct IH as [IH1 IH2]. split; [f_equal; exact IH1|].
-    intros i l H. destruct i as [|i]; cbn in *; [inversion H; reflexivity|apply IH2; exact H].
+  constructor.
+  - intros b x. exists (answer b x). cbn. split; [reflexivity|]. split; [|auto].
+    destruct (answer b x); cbn; lia.
+  - intros b x. cbn. split; [eexists; reflexivity|auto].
+  - intros b x q. exists COk. cbn. rewrite Z.eqb_refl.
+    split; [reflexivity|]. split; [intros; lia|]. split; [lia|]. split; [lia|]. split; [intros; lia|].
+    intros q' Hq. apply Z.eqb_neq in Hq. rewrite Z.eqb_sym, Hq. reflexivity.
 Qed.
 
-Theorem all_events_delivered events out ls :
-  snd (run_with_listeners events out ls) = map (emit ls) events /\
-  length (snd (run_with_listeners events out ls)) = length events.
-Proof. cbn. split; [reflexivity|apply map_length]. Qed.
+Lemma cspec_weaken {T} (sub : T -> op -> T * ans) ne nc hf pl hf' pl' :
+  cspec sub ne nc hf pl -> (hf' = true -> hf = true) -> (pl' = true -> pl = true) ->
+  cspec sub ne nc hf' pl'.
+Proof.
+  intros [P K C] Hh Hp. constructor; auto.
+  intros t x q. destruct (C t x q) as (c & H1 & H2 & H3 & H4 & H5 & H6).
+  exists c. repeat split; auto.
+Qed.
 
-(* non-vacuity: a retry layer with two further attempts under a bulkhead-like Swap layer, with a
-   Pending and an Err readiness answer on the way *)
-Example ex_protocol :
-  run_script [1; 2; 0; 2; 2; 2; 0; 1; 0; 0; 2]%Z =
-  [0; 1;  1; 0; 0;  2; 0; 1;  1; 0; 1;  1; 0; 0;  2; 0; 1;  1; 0; 0;  2; 0; 1;  1; 1; 2;  0]%Z.
-Proof. vm_compute. reflexivity. Qed.
+Lemma stack_cspec fuel hf pl : forall ds,
+  (hf = true -> Forall no_hedge ds) -> (pl = true -> Forall plain_disc ds) ->
+  cspec (execp fuel ds) sne snc hf pl.
+Proof.
+  induction ds as [|d ds' IH]; intros Hh Hp.
+  - apply (cspec_weaken _ _ _ true true); auto.
+    pose proof base_cspec as [P K C]. unfold sne, snc.
+    constructor; intros [ls b]; intros; rewrite execp_base; cbn [fst snd]; auto.
+  - assert (Hh' : hf = true -> Forall no_hedge ds') by (intros H; specialize (Hh H); inversion Hh; auto).
+    assert (Hp' : pl = true -> Forall plain_disc ds') by (intros H; specialize (Hp H); inversion Hp; auto).
+    assert (Hhd : hf = true -> no_hedge d) by (intros H; specialize (Hh H); inversion Hh; auto).
+    assert (Hpd : pl = true -> plain_disc d) by (intros H; specialize (Hp H); inversion Hp; auto).
+    pose proof (layer_cspec (execp fuel ds') sne snc hf pl (IH Hh' Hp') fuel d Hhd Hpd) as [P K C].
+    constructor.
+    + intros [[|l ls'] b] x.
+      * rewrite execp_nil. pose proof base_cspec as [P0 _ _]. unfold sne, snc. cbn [fst snd]. apply P0.
+      * specialize (P (l, (ls', b)) x). rewrite execp_cons.
+        destruct (lsub (execp fuel ds') fuel d (l, (ls', b)) (OPoll x)) as [[l' [ls2 b2]] a]. exact P.
+    + intros [[|l ls'] b] x.
+      * rewrite execp_nil. pose proof base_cspec as [_ K0 _]. unfold sne, snc. cbn [fst snd]. apply K0.
+      * specialize (K (l, (ls', b)) x). rewrite execp_cons.
+        destruct (lsub (execp fuel ds') fuel d (l, (ls', b)) (OClone x)) as [[l' [ls2 b2]] a]. exact K.
+    + intros [[|l ls'] b] x q.
+      * rewrite execp_nil. pose proof base_cspec as [_ _ C0]. unfold sne, snc. cbn [fst snd].
+        destruct (C0 b x q) as (c & H1 & H2 & H3 & H4 & H5 & H6). exists c. repeat split; auto.
+      * specialize (C (l, (ls', b)) x q). rewrite execp_cons.
+        destruct (lsub (execp fuel ds') fuel d (l, (ls', b)) (OCall x q)) as [[l' [ls2 b2]] a]. exact C.
+Qed.
+
+(* ------------------------------------------------------------------------- *)
+(* the sequential client: readiness errors surface exactly once, requests are forwarded *)
+Definition surfaced (c : Z) : bool := ((c =? 1) || (c =? 2))%Z.
+Definition count_if (f : Z -> bool) (l : list Z) : nat := length (filter f l).
+
+(* the requests for which the client got as far as call() *)
+Fixpoint issued (reqs out : list Z) : list Z :=
+  match reqs, out with
+  | q :: r, c :: o => if ((c =? 1) || (c =? 3))%Z then issued r o else q :: issued r o
+  | _, _ => []
+  end.
+
+Lemma code_of_rres_cases r : r <> RReady ->
+  ((code_of_rres r =? 1) || (code_of_rres r =? 3))%Z = true /\
+  (if surfaced (code_of_rres r) then 1 else 0) = is_err r.
+Proof. destruct r; intros H; [congruence|split; reflexivity|split; reflexivity]. Qed.
+
+Lemma code_of_ans_done c :
+  ((code_of_ans (ADone c) =? 1) || (code_of_ans (ADone c) =? 3))%Z = false /\
+  (if surfaced (code_of_ans (ADone c)) then 1 else 0) = is_crdy c.
+Proof. destruct c; split; reflexivity. Qed.
+
+Lemma client_counts cf fuel ds hf pl :
+  cspec (execp fuel ds) sne snc hf pl ->
+  forall reqs t,
+    let r := client cf fuel ds t reqs in
+    (hf = true -> sne (fst r) = sne t + count_if surfaced (snd r)) /\
+    (forall q, snc q t + count_occ Z.eq_dec (issued reqs (snd r)) q <= snc q (fst r)) /\
+    (pl = true -> forall q, snc q (fst r) = snc q t + count_occ Z.eq_dec (issued reqs (snd r)) q) /\
+    length (snd r) = length reqs.
+Proof.
+  intros Hc. induction reqs as [|q0 rest IH]; intros t; [cbn; repeat split; intros; lia|].
+  cbn zeta. rewrite client_cons.
+  destruct (poll_until_count (execp fuel ds) sne snc hf pl Hc cf t 0) as [P1 P2].
+  destruct (poll_until (execp fuel ds) cf t 0) as [t1 r] eqn:E. cbn [fst snd] in *.
+  assert (Hskip : r <> RReady ->
+    let r' := let '(t3, out) := client cf fuel ds t1 rest in (t3, code_of_rres r :: out) in
+    (hf = true -> sne (fst r') = sne t + count_if surfaced (snd r')) /\
+    (forall q, snc q t + count_occ Z.eq_dec (issued (q0 :: rest) (snd r')) q <= snc q (fst r')) /\
+    (pl = true -> forall q, snc q (fst r') = snc q t + count_occ Z.eq_dec (issued (q0 :: rest) (snd r')) q) /\
+    length (snd r') = length (q0 :: rest)).
+  { intros Hr. destruct (code_of_rres_cases r Hr) as [K1 K2].
+    specialize (IH t1). cbn zeta in IH. destruct (client cf fuel ds t1 rest) as [t3 out].
+    cbn [fst snd] in *. destruct IH as (I1 & I2 & I3 & I4).
+    cbn [issued]. rewrite K1. unfold count_if in *. cbn [filter].
+    split; [|split; [|split]].
+    - intros H. rewrite (I1 H), P1. revert K2. destruct (surfaced (code_of_rres r)); cbn [length]; lia.
+    - intros q. rewrite <- (P2 q). apply I2.
+    - intros H q. rewrite (I3 H q), P2. reflexivity.
+    - cbn [length]. lia. }
+  destruct r; [|apply Hskip; discriminate|apply Hskip; discriminate]. clear Hskip.
+  destruct (cs_call _ _ _ _ _ Hc t1 0 q0) as (c & Hcc & C1 & C2 & C3 & C4 & C5).
+  destruct (execp fuel ds t1 (OCall 0 q0)) as [t2 a] eqn:E2. cbn [fst snd] in *. subst a.
+  destruct (code_of_ans_done c) as [K1 K2].
+  specialize (IH t2). cbn zeta in IH. destruct (client cf fuel ds t2 rest) as [t3 out].
+  cbn [fst snd] in *. destruct IH as (I1 & I2 & I3 & I4).
+  cbn [issued]. rewrite K1. unfold count_if in *. cbn [filter is_err] in *.
+  assert (Hlen : length (code_of_ans (ADone c) :: out) = S (length rest)) by (cbn; lia).
+  split; [|split; [|split; [|exact Hlen]]].
+  - intros H. rewrite (I1 H), (C1 H), P1. revert K2.
+    destruct (surfaced (code_of_ans (ADone c))); cbn [length]; lia.
+  - intros q. cbn [count_occ]. destruct (Z.eq_dec q0 q) as [->|Hne].
+    + specialize (I2 q). rewrite <- (P2 q). lia.
+    + specialize (I2 q). rewrite (C5 q) in I2 by congruence. rewrite <- (P2 q). lia.
+  - intros H q. cbn [count_occ]. destruct (Z.eq_dec q0 q) as [->|Hne].
+    + rewrite (I3 H q), (C4 H), P2. lia.
+    + rewrite (I3 H q), (C5 q) by congruence. rewrite P2. reflexivity.
+Qed.
+
+(* C20 (readiness errors surface as readiness errors), any stack without a hedge layer, any
+   request list, any oracle: the wrapped service's readiness errors and the requests the client
+   saw failing with a readiness error (at poll_ready: code 1, inside the call: code 2) are
+   equinumerous: each error ends exactly one request, none is swallowed, none is made up *)
+Theorem readiness_errors_surface_once cf fuel ds t reqs :
+  Forall no_hedge ds ->
+  let r := client cf fuel ds t reqs in
+  nerrs (blog (snd (fst r))) = nerrs (blog (snd t)) + count_if surfaced (snd r).
+Proof.
+  intros Hh. pose proof (stack_cspec fuel true false ds (fun _ => Hh) ltac:(discriminate)) as Hc.
+  destruct (client_counts cf fuel ds true false Hc reqs t) as (H1 & _). apply H1. reflexivity.
+Qed.
+
+(* in particular (one request): a readiness error met anywhere, at any depth, at poll_ready or
+   before a further attempt of a retry / reconnect layer, ends that request with a readiness
+   error *)
+Corollary readiness_error_ends_request cf fuel ds b0 q :
+  Forall no_hedge ds -> nerrs (blog b0) = 0 ->
+  let r := client cf fuel ds (init_stack ds b0) [q] in
+  (exists x, In (LPoll x RErr) (blog (snd (fst r)))) -> snd r = [1%Z] \/ snd r = [2%Z].
+Proof.
+  intros Hh H0 r [x Hx].
+  pose proof (readiness_errors_surface_once cf fuel ds (init_stack ds b0) [q] Hh) as H.
+  fold r in H. cbn [init_stack snd] in H. rewrite H0 in H.
+  assert (Hpos : 1 <= nerrs (blog (snd (fst r)))).
+  { clear H. induction (blog (snd (fst r))) as [|e l IH]; [destruct Hx|].
+    destruct Hx as [->|Hx]; [cbn; lia|]. specialize (IH Hx). destruct e as [y [| |]|y q' ok|y z]; cbn; lia. }
+  unfold r in *. clear r. cbn [client] in *.
+  destruct (poll_until (execp fuel ds) cf (init_stack ds b0) 0) as [t1 [| |]].
+  - destruct (execp fuel ds t1 (OCall 0 q)) as [t2 a]. cbn [fst snd] in *.
+    destruct a as [i|r'|[| |]]; cbn in *; try lia. right. reflexivity.
+  - cbn in *. lia.
+  - cbn. left. reflexivity.
+Qed.
+
+(* C20 (each request is forwarded unchanged), sequential client: the wrapped service sees every
+   request the client issued (at least once; exactly once when no layer retries or hedges) and no
+   other request value *)
+Theorem requests_reach_the_service cf fuel ds t reqs :
+  let r := client cf fuel ds t reqs in
+  (forall q, ncalls q (blog (snd t)) + count_occ Z.eq_dec (issued reqs (snd r)) q
+             <= ncalls q (blog (snd (fst r)))) /\
+  (Forall plain_disc ds -> forall q,
+      ncalls q (blog (snd (fst r))) =
+      ncalls q (blog (snd t)) + count_occ Z.eq_dec (issued reqs (snd r)) q).
+Proof.
+  split.
+  - pose proof (stack_cspec fuel false false ds ltac:(discriminate) ltac:(discriminate)) as Hc.
+    destruct (client_counts cf fuel ds false false Hc reqs t) as (_ & H2 & _). exact H2.
+  - intros Hp. pose proof (stack_cspec fuel false true ds ltac:(discriminate) (fun _ => Hp)) as Hc.
+    destruct (client_counts cf fuel ds false true Hc reqs t) as (_ & _ & H3 & _). apply H3. reflexivity.
+Qed.
+
+(* the functional half of the readiness clause: a request answered with code 0 was called, on an
+   instance that had been polled ready *)
+Lemma ncalls_pos_in q l : 1 <= ncalls q l -> exists x ok, In (LCall x q ok) l.
+Proof.
+  induction l as [|e l IH]; cbn; [lia|].
+  destruct e as [y r|y q' ok|y z]; intros H.
+  - destruct (IH H) as (x & ok & Hin). eauto.
+  - destruct (Z.eqb_spec q' q) as [->|Hne].
+    + exists y, ok. left. reflexivity.
+    + destruct (IH ltac:(cbn in H; lia)) as (x & ok' & Hin). eauto.
+  - destruct (IH H) as (x & ok & Hin). eauto.
+Qed.
+
+Theorem answered_request_was_called cf fuel ds b0 q :
+  base_ok b0 -> violations b0 = 0 ->
+  let r := client cf fuel ds (init_stack ds b0) [q] in
+  snd r = [0%Z] -> exists x, In (LCall x q true) (blog (snd (fst r))).
+Proof.
+  intros Hb H0 r Hout.
+  destruct (requests_reach_the_service cf fuel ds (init_stack ds b0) [q]) as [H _].
+  fold r in H. specialize (H q). rewrite Hout in H. cbn [issued Z.eqb orb count_occ] in H.
+  destruct (Z.eq_dec q q) as [_|Hne]; [|congruence].
+  destruct (ncalls_pos_in q (blog (snd (fst r))) ltac:(lia)) as (x & ok & Hin).
+  destruct (stack_honours_readiness cf fuel ds b0 [q] Hb H0) as [_ Hall]. fold r in Hall.
+  exists x. unfold all_calls_ready in Hall. rewrite Forall_forall in Hall.
+  specialize (Hall _ Hin). cbn in Hall. subst ok. exact Hin.
+Qed.
+
+(* ------------------------------------------------------------------------- *)
+(* the same for ANY client program *)
+Definition is_one (z : Z) : bool := (z =? 1)%Z.
+Definition is_two (z : Z) : bool := (z =? 2)%Z.
+(* request number q was issued between two client states *)
+Definition issued_between (c c' : cst) (q : Z) : nat :=
+  if ((Z.of_nat (nreq c) <? q) && (q <=? Z.of_nat (nreq c')))%Z then 1 else 0.
+
+Section ProgCount.
+  Context {T : Type} (sub : T -> op -> T * ans) (ne : T -> nat) (nc : Z -> T -> nat).
+  Context (hf pl : bool) (Hc : cspec sub ne nc hf pl) (cf : nat).
+
+  Lemma code_of_ans_two c : (if is_two (code_of_ans (ADone c)) then 1 else 0) = is_crdy c.
+  Proof. destruct c; reflexivity. Qed.
+  Lemma code_of_rres_one r : (if is_one (code_of_rres r) then 1 else 0) = is_err r.
+  Proof. destruct r; reflexivity. Qed.
+
+  Lemma cstep_count p o :
+    let r := cstep sub cf p o in
+    (hf = true -> ne (fst (fst r)) + count_if is_two (outs (snd p)) =
+                  ne (fst p) + (if is_one (snd r) then 1 else 0) + count_if is_two (outs (snd (fst r)))) /\
+    (nreq (snd p) <= nreq (snd (fst r)) <= S (nreq (snd p))) /\
+    (forall q, nc q (fst p) + issued_between (snd p) (snd (fst r)) q <= nc q (fst (fst r))) /\
+    (pl = true -> forall q, nc q (fst (fst r)) = nc q (fst p) + issued_between (snd p) (snd (fst r)) q).
+  Proof.
+    destruct p as [t c]. cbn zeta. cbn [fst snd].
+    assert (Hib : forall c' q, nreq c' = nreq c -> issued_between c c' q = 0).
+    { intros c' q E. unfold issued_between. rewrite E. destruct (Z.ltb_spec (Z.of_nat (nreq c)) q);
+        destruct (Z.leb_spec q (Z.of_nat (nreq c))); cbn; try reflexivity. lia. }
+    assert (Hsame : forall z, is_one z = false ->
+      (hf = true -> ne t + count_if is_two (outs c) = ne t + (if is_one z then 1 else 0) + count_if is_two (outs c)) /\
+      (nreq c <= nreq c <= S (nreq c)) /\
+      (forall q, nc q t + issued_between c c q <= nc q t) /\
+      (pl = true -> forall q, nc q t = nc q t + issued_between c c q)).
+    { intros z Hz. rewrite Hz. repeat split; intros; rewrite ?Hib by reflexivity; lia. }
+    destruct o as [h|h|h|h|]; cbn [cstep fst snd]; try (apply Hsame; reflexivity).
+    - destruct (nth_error (hs c) h) as [x|]; [|apply Hsame; reflexivity].
+      destruct (poll_until_count sub ne nc hf pl Hc cf t x) as [P1 P2].
+      destruct (poll_until sub cf t x) as [t1 r]. cbn [fst snd outs nreq] in *.
+      rewrite code_of_rres_one.
+      split; [intros; lia|]. split; [lia|]. split; [intros q; rewrite Hib by reflexivity; rewrite P2; lia|].
+      intros _ q. rewrite Hib by reflexivity. rewrite P2. lia.
+    - destruct (nth_error (hs c) h) as [x|]; [|apply Hsame; reflexivity].
+      destruct (crdy c x); [|apply Hsame; reflexivity].
+      destruct (cs_call _ _ _ _ _ Hc t x (Z.of_nat (S (nreq c)))) as (cr & Hcc & C1 & C2 & C3 & C4 & C5).
+      destruct (sub t (OCall x (Z.of_nat (S (nreq c))))) as [t1 a]. cbn [fst snd outs nreq] in *. subst a.
+      assert (Hib1 : forall q, issued_between c (mkC (hs c) (updb (crdy c) x false)
+                        (code_of_ans (ADone cr) :: outs c) (S (nreq c))) q =
+                      if Z.eq_dec q (Z.of_nat (S (nreq c))) then 1 else 0).
+      { intros q. unfold issued_between. cbn [nreq].
+        destruct (Z.eq_dec q (Z.of_nat (S (nreq c)))) as [->|Hne].
+        - destruct (Z.ltb_spec (Z.of_nat (nreq c)) (Z.of_nat (S (nreq c)))); [|lia].
+          destruct (Z.leb_spec (Z.of_nat (S (nreq c))) (Z.of_nat (S (nreq c)))); [reflexivity|lia].
+        - destruct (Z.ltb_spec (Z.of_nat (nreq c)) q); destruct (Z.leb_spec q (Z.of_nat (S (nreq c))));
+            cbn; try reflexivity. lia. }
+      unfold count_if. cbn [filter]. pose proof (code_of_ans_two cr) as K.
+      split; [|split; [lia|split]].
+      + intros H. rewrite (C1 H). revert K. destruct (is_two (code_of_ans (ADone cr))); cbn [length is_one Z.eqb]; lia.
+      + intros q. rewrite Hib1. destruct (Z.eq_dec q (Z.of_nat (S (nreq c)))) as [->|Hne]; [lia|].
+        rewrite (C5 q Hne). lia.
+      + intros H q. rewrite Hib1. destruct (Z.eq_dec q (Z.of_nat (S (nreq c)))) as [->|Hne]; [apply (C4 H)|].
+        rewrite (C5 q Hne). lia.
+    - destruct (nth_error (hs c) h) as [x|]; [|apply Hsame; reflexivity].
+      destruct (cs_clone _ _ _ _ _ Hc t x) as ((y & Hy) & K1 & K2).
+      destruct (sub t (OClone x)) as [t1 a]. cbn [fst snd] in *. subst a. cbn [fst snd outs nreq].
+      split; [intros; cbn; lia|]. split; [lia|]. split; [intros q; rewrite Hib by reflexivity; rewrite K2; lia|].
+      intros _ q. rewrite Hib by reflexivity. rewrite K2. lia.
+    - destruct (nth_error (hs c) h); apply Hsame; reflexivity.
+  Qed.
+End ProgCount.
+
+Lemma issued_between_trans c1 c2 c3 q :
+  nreq c1 <= nreq c2 -> nreq c2 <= nreq c3 ->
+  issued_between c1 c3 q = issued_between c1 c2 q + issued_between c2 c3 q.
+Proof.
+  intros H1 H2. unfold issued_between.
+  destruct (Z.ltb_spec (Z.of_nat (nreq c1)) q); destruct (Z.leb_spec q (Z.of_nat (nreq c3)));
+    destruct (Z.leb_spec q (Z.of_nat (nreq c2))); destruct (Z.ltb_spec (Z.of_nat (nreq c2)) q);
+    cbn; try reflexivity; lia.
+Qed.
+
+Section ProgCount2.
+  Context {T : Type} (sub : T -> op -> T * ans) (ne : T -> nat) (nc : Z -> T -> nat).
+  Context (hf pl : bool) (Hc : cspec sub ne nc hf pl) (cf : nat).
+
+  Lemma run_cops_count : forall os p,
+    let r := run_cops sub cf p os in
+    (hf = true -> ne (fst (fst r)) + count_if is_two (outs (snd p)) =
+                  ne (fst p) + count_if is_one (snd r) + count_if is_two (outs (snd (fst r)))) /\
+    (nreq (snd p) <= nreq (snd (fst r))) /\
+    (forall q, nc q (fst p) + issued_between (snd p) (snd (fst r)) q <= nc q (fst (fst r))) /\
+    (pl = true -> forall q, nc q (fst (fst r)) = nc q (fst p) + issued_between (snd p) (snd (fst r)) q).
+  Proof.
+    induction os as [|o rest IH]; intros p; cbn zeta; cbn [run_cops].
+    - cbn [fst snd]. unfold count_if. cbn [filter length].
+      assert (Hib : forall q, issued_between (snd p) (snd p) q = 0).
+      { intros q. unfold issued_between. destruct (Z.ltb_spec (Z.of_nat (nreq (snd p))) q);
+          destruct (Z.leb_spec q (Z.of_nat (nreq (snd p)))); cbn; try reflexivity. lia. }
+      repeat split; intros; rewrite ?Hib; lia.
+    - destruct (cstep_count sub ne nc hf pl Hc cf p o) as (S1 & S2 & S3 & S4).
+      destruct (cstep sub cf p o) as [p1 z]. cbn [fst snd] in *.
+      specialize (IH p1). cbn zeta in IH. destruct IH as (I1 & I2 & I3 & I4).
+      destruct (run_cops sub cf p1 rest) as [p2 zs]. cbn [fst snd] in *.
+      unfold count_if in *. cbn [filter].
+      split; [|split; [lia|split]].
+      + intros H. specialize (S1 H). specialize (I1 H).
+        destruct (is_one z); cbn [length]; lia.
+      + intros q. rewrite (issued_between_trans (snd p) (snd p1) (snd p2) q) by lia.
+        specialize (S3 q). specialize (I3 q). lia.
+      + intros H q. rewrite (issued_between_trans (snd p) (snd p1) (snd p2) q) by lia.
+        rewrite (I4 H q), (S4 H q). lia.
+  Qed.
+End ProgCount2.
+
+(* ANY program over a hedge-free stack: the wrapped service's readiness errors are equinumerous
+   with the poll operations that reported a readiness error (code 1) plus the requests that ended
+   with one (code 2) *)
+Theorem program_readiness_errors_surface_once cf fuel ds b0 os :
+  Forall no_hedge ds -> nerrs (blog b0) = 0 ->
+  let r := run_cops (execp fuel ds) cf (init_stack ds b0, init_c) os in
+  nerrs (blog (snd (fst (fst r)))) = count_if is_one (snd r) + count_if is_two (outs (snd (fst r))).
+Proof.
+  intros Hh H0. pose proof (stack_cspec fuel true false ds (fun _ => Hh) ltac:(discriminate)) as Hc.
+  destruct (run_cops_count (execp fuel ds) sne snc true false Hc cf os (init_stack ds b0, init_c)) as (H1 & _).
+  specialize (H1 eq_refl). cbn zeta. unfold sne in H1. cbn [fst snd init_stack init_c outs] in H1.
+  unfold count_if in H1 at 1. cbn [filter length] in H1. lia.
+Qed.
+
+(* ANY program over ANY stack: the wrapped service sees every request the client issued
+   (requests are numbered 1, 2, ... in the order of issue) at least once, exactly once when no
+   layer retries or hedges, and never a request value that was not issued *)
+Theorem program_requests_reach_the_service cf fuel ds b0 os :
+  (forall q, ncalls q (blog b0) = 0) ->
+  let r := run_cops (execp fuel ds) cf (init_stack ds b0, init_c) os in
+  let n := nreq (snd (fst r)) in
+  (forall q, (1 <= q <= Z.of_nat n)%Z -> 1 <= ncalls q (blog (snd (fst (fst r))))) /\
+  (Forall plain_disc ds -> forall q,
+      ncalls q (blog (snd (fst (fst r)))) = if ((1 <=? q) && (q <=? Z.of_nat n))%Z then 1 else 0).
+Proof.
+  intros H0. cbn zeta.
+  set (r := run_cops (execp fuel ds) cf (init_stack ds b0, init_c) os).
+  split.
+  - pose proof (stack_cspec fuel false false ds ltac:(discriminate) ltac:(discriminate)) as Hc.
+    destruct (run_cops_count (execp fuel ds) sne snc false false Hc cf os (init_stack ds b0, init_c)) as (_ & _ & H3 & _).
+    fold r in H3. intros q Hq. specialize (H3 q). unfold snc, issued_between in H3.
+    cbn [fst snd init_c nreq] in H3. change (snd (init_stack ds b0)) with b0 in H3. rewrite H0 in H3.
+    destruct (Z.ltb_spec (Z.of_nat 0) q); [|lia].
+    destruct (Z.leb_spec q (Z.of_nat (nreq (snd (fst r))))); [|lia].
+    cbn [andb] in H3. lia.
+  - intros Hp q.
+    pose proof (stack_cspec fuel false true ds ltac:(discriminate) (fun _ => Hp)) as Hc.
+    destruct (run_cops_count (execp fuel ds) sne snc false true Hc cf os (init_stack ds b0, init_c)) as (_ & _ & _ & H4).
+    fold r in H4. specialize (H4 eq_refl q). unfold snc, issued_between in H4.
+    cbn [fst snd init_c nreq] in H4. change (snd (init_stack ds b0)) with b0 in H4. rewrite H0 in H4.
+    rewrite H4. cbn [Nat.add].
+    replace (Z.of_nat 0 <? q)%Z with (1 <=? q)%Z; [reflexivity|].
+    destruct (Z.leb_spec 1 q); destruct (Z.ltb_spec (Z.of_nat 0) q); try reflexivity; lia.
+Qed.
+
+(* ------------------------------------------------------------------------- *)
+(* Inside a call a layer waits for readiness for as long as it takes. With more fuel than the
+   oracle has Pending answers left, no poll loop of the model gives up and no request hangs: the
+   fuel bound is not what makes the theorems above true for the scripts run_script executes. *)
+Section Starve.
+  Context {T : Type} (sub : T -> op -> T * ans) (pend : T -> nat) (fuel : nat).
+
+  Record mspec : Prop := {
+    ms_mono : forall t o, pend (fst (sub t o)) <= pend t;
+    ms_poll : forall t x, exists r, snd (sub t (OPoll x)) = ARes r /\
+                                    (r = RPending -> pend (fst (sub t (OPoll x))) < pend t);
+    ms_clone : forall t x, exists y, snd (sub t (OClone x)) = AId y;
+    ms_call : forall t x q, pend t < fuel -> snd (sub t (OCall x q)) <> ADone CHang
+  }.
+
+  Context (Hm : mspec).
+
+  Lemma poll_until_mono f : forall t y, pend (fst (poll_until sub f t y)) <= pend t.
+  Proof.
+    induction f as [|f IH]; intros t y; cbn [poll_until]; [cbn; lia|].
+    pose proof (ms_mono Hm t (OPoll y)) as M.
+    destruct (sub t (OPoll y)) as [t1 a]. cbn [fst snd] in *.
+    destruct a as [i|[| |]|c]; cbn [fst]; try lia; specialize (IH t1 y); lia.
+  Qed.
+
+  Lemma poll_until_answers f : forall t y, pend t < f -> snd (poll_until sub f t y) <> RPending.
+  Proof.
+    induction f as [|f IH]; intros t y Hlt; [lia|]. cbn [poll_until].
+    destruct (ms_poll Hm t y) as (r & Hr & Hp).
+    destruct (sub t (OPoll y)) as [t1 a]. cbn [fst snd] in *. subst a.
+    destruct r; cbn [snd]; try discriminate. apply IH. specialize (Hp eq_refl). lia.
+  Qed.
+
+  Lemma attempts_mono k : forall t y q, pend (fst (attempts sub fuel k t y q)) <= pend t.
+  Proof.
+    induction k as [|k IH]; intros t y q; cbn [attempts]; [cbn; lia|].
+    pose proof (poll_until_mono fuel t y) as M1.
+    destruct (poll_until sub fuel t y) as [t1 r]. cbn [fst snd] in *.
+    destruct r; cbn [fst]; try lia.
+    pose proof (ms_mono Hm t1 (OCall y q)) as M2.
+    destruct (sub t1 (OCall y q)) as [t2 a]. cbn [fst snd] in *.
+    destruct a as [i|r|[| |]]; cbn [fst]; try lia; specialize (IH t2 y q); lia.
+  Qed.
+
+  Lemma attempts_no_hang k : forall t y q, pend t < fuel -> snd (attempts sub fuel k t y q) <> CHang.
+  Proof.
+    induction k as [|k IH]; intros t y q Hlt; cbn [attempts]; [cbn; discriminate|].
+    pose proof (poll_until_mono fuel t y) as M1.
+    pose proof (poll_until_answers fuel t y Hlt) as A1.
+    destruct (poll_until sub fuel t y) as [t1 r]. cbn [fst snd] in *.
+    destruct r; cbn [snd]; try discriminate; try congruence.
+    pose proof (ms_mono Hm t1 (OCall y q)) as M2.
+    pose proof (ms_call Hm t1 y q ltac:(lia)) as C.
+    destruct (sub t1 (OCall y q)) as [t2 a]. cbn [fst snd] in *.
+    destruct a as [i|r|[| |]]; cbn [snd]; try discriminate; try congruence; apply IH; lia.
+  Qed.
+
+  Lemma hedges_mono k : forall t y0 q, pend (hedges sub fuel k t y0 q) <= pend t.
+  Proof.
+    induction k as [|k IH]; intros t y0 q; cbn [hedges]; [lia|].
+    pose proof (ms_mono Hm t (OClone y0)) as M0.
+    destruct (sub t (OClone y0)) as [t1 a]. cbn [fst snd] in *.
+    destruct a as [h|r|c]; try lia.
+    pose proof (poll_until_mono fuel t1 h) as M1.
+    destruct (poll_until sub fuel t1 h) as [t2 r]. cbn [fst snd] in *.
+    destruct r; try (specialize (IH t2 y0 q); lia).
+    pose proof (ms_mono Hm t2 (OCall h q)) as M2.
+    destruct (sub t2 (OCall h q)) as [t3 a3]. cbn [fst snd] in *. specialize (IH t3 y0 q). lia.
+  Qed.
+
+  Context (d : disc).
+
+  Lemma layer_mspec_gen : 
+    (forall p o, pend (snd (fst (lsub sub fuel d p o))) <= pend (snd p)) /\
+    (forall p x, exists r, snd (lsub sub fuel d p (OPoll x)) = ARes r /\
+                 (r = RPending -> pend (snd (fst (lsub sub fuel d p (OPoll x)))) < pend (snd p))) /\
+    (forall p x, exists y, snd (lsub sub fuel d p (OClone x)) = AId y) /\
+    (forall p x q, pend (snd p) < fuel -> snd (lsub sub fuel d p (OCall x q)) <> ADone CHang).
+  Proof.
+    split; [|split; [|split]].
+    - intros [l t] o. unfold lsub. cbn [fst snd].
+      destruct o as [x|x|x q]; cbn [layer_exec].
+      + pose proof (ms_mono Hm t (OClone (imap l x))) as M.
+        destruct (sub t (OClone (imap l x))) as [t1 a]. destruct a; cbn [fst snd] in *; lia.
+      + pose proof (ms_mono Hm t (OPoll (imap l x))) as M.
+        destruct (sub t (OPoll (imap l x))) as [t1 a]. cbn [fst snd] in *. lia.
+      + set (y := imap l x). destruct d as [| |k|k|k].
+        * pose proof (ms_mono Hm t (OClone y)) as M. destruct (sub t (OClone y)) as [t1 a]. cbn [fst snd] in *.
+          destruct a as [y'|r|c]; cbn [fst snd]; try lia.
+          pose proof (ms_mono Hm t1 (OCall y q)) as M2. destruct (sub t1 (OCall y q)) as [t2 a0]. cbn [fst snd] in *. lia.
+        * pose proof (ms_mono Hm t (OCall y q)) as M. destruct (sub t (OCall y q)) as [t1 a]. cbn [fst snd] in *. lia.
+        * pose proof (ms_mono Hm t (OClone y)) as M. destruct (sub t (OClone y)) as [t1 a]. cbn [fst snd] in *.
+          destruct a as [y'|r|c]; cbn [fst snd]; try lia.
+          pose proof (ms_mono Hm t1 (OCall y q)) as M2. destruct (sub t1 (OCall y q)) as [t2 a0]. cbn [fst snd] in *.
+          destruct (cres_of a0); cbn [fst snd]; try lia.
+          pose proof (attempts_mono k t2 y q) as M3. destruct (attempts sub fuel k t2 y q) as [t3 e]. cbn [fst snd] in *. lia.
+        * pose proof (ms_mono Hm t (OClone y)) as M. destruct (sub t (OClone y)) as [t1 a]. cbn [fst snd] in *.
+          destruct a as [y'|r|c]; cbn [fst snd]; try lia.
+          pose proof (ms_mono Hm t1 (OCall y q)) as M2. destruct (sub t1 (OCall y q)) as [t2 a0]. cbn [fst snd] in *.
+          pose proof (hedges_mono k t2 y' q). lia.
+        * pose proof (ms_mono Hm t (OCall y q)) as M. destruct (sub t (OCall y q)) as [t1 a0]. cbn [fst snd] in *.
+          pose proof (ms_mono Hm t1 (OClone y)) as M2. destruct (sub t1 (OClone y)) as [t2 a]. cbn [fst snd] in *.
+          destruct a as [z|r|c]; cbn [fst snd]; try lia.
+          destruct (cres_of a0); cbn [fst snd]; try lia.
+          pose proof (attempts_mono k t2 z q) as M3. destruct (attempts sub fuel k t2 z q) as [t3 e]. cbn [fst snd] in *. lia.
+    - intros [l t] x. unfold lsub. cbn [fst snd layer_exec].
+      destruct (ms_poll Hm t (imap l x)) as (r & Hr & Hp).
+      destruct (sub t (OPoll (imap l x))) as [t1 a]. cbn [fst snd] in *. exists r. auto.
+    - intros [l t] x. unfold lsub. cbn [fst snd layer_exec].
+      destruct (ms_clone Hm t (imap l x)) as (y & Hy).
+      destruct (sub t (OClone (imap l x))) as [t1 a]. cbn [fst snd] in *. subst a. cbn. eexists; reflexivity.
+    - intros [l t] x q Hlt. unfold lsub. cbn [fst snd layer_exec] in *.
+      set (y := imap l x). destruct d as [| |k|k|k].
+      + pose proof (ms_mono Hm t (OClone y)) as M. destruct (sub t (OClone y)) as [t1 a] eqn:E. cbn [fst snd] in *.
+        destruct a as [y'|r|c]; cbn [fst snd]; try discriminate.
+        * pose proof (ms_call Hm t1 y q ltac:(lia)) as C. destruct (sub t1 (OCall y q)) as [t2 a0]. cbn [fst snd] in *.
+          destruct a0 as [i|r|[| |]]; cbn; congruence.
+        * destruct (ms_clone Hm t y) as [z Hz]. rewrite E in Hz. discriminate.
+      + pose proof (ms_call Hm t y q Hlt) as C. destruct (sub t (OCall y q)) as [t1 a]. cbn [fst snd] in *.
+        destruct a as [i|r|[| |]]; cbn; congruence.
+      + pose proof (ms_mono Hm t (OClone y)) as M. destruct (sub t (OClone y)) as [t1 a] eqn:E. cbn [fst snd] in *.
+        destruct a as [y'|r|c]; cbn [fst snd]; try discriminate.
+        * pose proof (ms_call Hm t1 y q ltac:(lia)) as C. pose proof (ms_mono Hm t1 (OCall y q)) as M2.
+          destruct (sub t1 (OCall y q)) as [t2 a0]. cbn [fst snd] in *.
+          destruct a0 as [i|r|[| |]]; cbn [cres_of fst snd]; try congruence; try discriminate;
+            pose proof (attempts_no_hang k t2 y q ltac:(lia)) as A;
+            destruct (attempts sub fuel k t2 y q) as [t3 e]; cbn [fst snd] in *; congruence.
+        * destruct (ms_clone Hm t y) as [z Hz]. rewrite E in Hz. discriminate.
+      + pose proof (ms_mono Hm t (OClone y)) as M. destruct (sub t (OClone y)) as [t1 a] eqn:E. cbn [fst snd] in *.
+        destruct a as [y'|r|c]; cbn [fst snd]; try discriminate.
+        * destruct (sub t1 (OCall y q)) as [t2 a0]. cbn [fst snd]. discriminate.
+        * destruct (ms_clone Hm t y) as [z Hz]. rewrite E in Hz. discriminate.
+      + pose proof (ms_call Hm t y q Hlt) as C. pose proof (ms_mono Hm t (OCall y q)) as M.
+        destruct (sub t (OCall y q)) as [t1 a0]. cbn [fst snd] in *.
+        pose proof (ms_mono Hm t1 (OClone y)) as M2. destruct (sub t1 (OClone y)) as [t2 a] eqn:E. cbn [fst snd] in *.
+        destruct a as [z|r|c]; cbn [fst snd]; try discriminate.
+        * destruct a0 as [i|r|[| |]]; cbn [cres_of fst snd]; try congruence; try discriminate;
+            pose proof (attempts_no_hang k t2 z q ltac:(lia)) as A;
+            destruct (attempts sub fuel k t2 z q) as [t3 e]; cbn [fst snd] in *; congruence.
+        * destruct (ms_clone Hm t1 y) as [z Hz]. rewrite E in Hz. discriminate.
+  Qed.
+End Starve.
+
+Lemma layer_mspec {T} (sub : T -> op -> T * ans) pend fuel (Hm : mspec sub pend fuel) d :
+  mspec (lsub sub fuel d) (fun p => pend (snd p)) fuel.
+Proof.
+  destruct (layer_mspec_gen sub pend fuel Hm d) as (H1 & H2 & H3 & H4).
+  constructor; auto.
+Qed.
+
+(* Pending answers the wrapped service still has in store *)
+Definition bpend (b : base) : nat :=
+  if pmode b then length (concat (porc b)) else length (oracle b).
+
+Lemma drop_at_le c : forall l, length (concat (drop_at c l)) <= length (concat l).
+Proof.
+  induction c as [|c IH]; intros [|h r]; cbn [drop_at concat]; try lia.
+  - rewrite !app_length. destruct h; cbn; lia.
+  - rewrite !app_length. specialize (IH r). lia.
+Qed.
+
+Lemma drop_at_lt c : forall l, head_or_ready (nth c l []) = RPending ->
+  length (concat (drop_at c l)) < length (concat l).
+Proof.
+  induction c as [|c IH]; intros [|h r] H; cbn [drop_at concat nth] in *; try discriminate.
+  - rewrite !app_length. destruct h; cbn in *; [discriminate|lia].
+  - rewrite !app_length. specialize (IH r H). lia.
+Qed.
+
+Lemma base_mspec fuel : mspec base_exec bpend fuel.
+Proof.
+  constructor.
+  - intros b o. destruct o as [x|x|x q]; unfold bpend; cbn; try lia.
+    destruct (pmode b); [apply drop_at_le|destruct (oracle b); cbn; lia].
+  - intros b x. exists (answer b x). split; [reflexivity|]. intros Hr. unfold bpend, answer in *. cbn.
+    destruct (pmode b); [apply drop_at_lt; exact Hr|destruct (oracle b); cbn in *; [discriminate|lia]].
+  - intros b x. eexists; reflexivity.
+  - intros b x q _. cbn. discriminate.
+Qed.
+
+Definition spend (t : list lstate * base) : nat := bpend (snd t).
+
+Lemma stack_mspec fuel : forall ds, mspec (execp fuel ds) spend fuel.
+Proof.
+  induction ds as [|d ds' IH].
+  - pose proof (base_mspec fuel) as [M P K C]. unfold spend.
+    constructor; intros [ls b]; intros; rewrite execp_base; cbn [fst snd]; auto.
+  - pose proof (layer_mspec (execp fuel ds') spend fuel IH d) as [M P K C].
+    pose proof (base_mspec fuel) as [M0 P0 K0 C0].
+    constructor.
+    + intros [[|l ls'] b] o.
+      * rewrite execp_nil. unfold spend. cbn [fst snd]. apply M0.
+      * specialize (M (l, (ls', b)) o). rewrite execp_cons.
+        destruct (lsub (execp fuel ds') fuel d (l, (ls', b)) o) as [[l' [ls2 b2]] a]. exact M.
+    + intros [[|l ls'] b] x.
+      * rewrite execp_nil. unfold spend. cbn [fst snd]. apply P0.
+      * specialize (P (l, (ls', b)) x). rewrite execp_cons.
+        destruct (lsub (execp fuel ds') fuel d (l, (ls', b)) (OPoll x)) as [[l' [ls2 b2]] a]. exact P.
+    + intros [[|l ls'] b] x.
+      * rewrite execp_nil. cbn [fst snd]. apply K0.
+      * specialize (K (l, (ls', b)) x). rewrite execp_cons.
+        destruct (lsub (execp fuel ds') fuel d (l, (ls', b)) (OClone x)) as [[l' [ls2 b2]] a]. exact K.
+    + intros [[|l ls'] b] x q Hlt.
+      * rewrite execp_nil. cbn [fst snd]. apply C0. exact Hlt.
+      * specialize (C (l, (ls', b)) x q Hlt). rewrite execp_cons.
+        destruct (lsub (execp fuel ds') fuel d (l, (ls', b)) (OCall x q)) as [[l' [ls2 b2]] a]. exact C.
+Qed.
+
+(* no request of the sequential client hangs (code 9) when the fuel exceeds the Pending answers in store *)
+Theorem client_never_hangs cf fuel ds : forall reqs t,
+  spend t < fuel -> ~ In 9%Z (snd (client cf fuel ds t reqs)).
+Proof.
+  pose proof (stack_mspec fuel ds) as Hm.
+  induction reqs as [|q rest IH]; intros t Hlt; [cbn; tauto|].
+  rewrite client_cons.
+  pose proof (poll_until_mono (execp fuel ds) spend fuel Hm cf t 0) as M1.
+  destruct (poll_until (execp fuel ds) cf t 0) as [t1 r]. cbn [fst snd] in *.
+  assert (Hskip : r <> RReady ->
+            ~ In 9%Z (snd (let '(t3, out) := client cf fuel ds t1 rest in (t3, code_of_rres r :: out)))).
+  { intros Hr. specialize (IH t1 ltac:(lia)). destruct (client cf fuel ds t1 rest) as [t3 out].
+    cbn [snd] in *. intros [H|H]; [destruct r; cbn in H; congruence|exact (IH H)]. }
+  destruct r; [|apply Hskip; discriminate|apply Hskip; discriminate].
+  pose proof (ms_mono _ _ _ Hm t1 (OCall 0 q)) as M2.
+  pose proof (ms_call _ _ _ Hm t1 0 q ltac:(lia)) as C.
+  destruct (execp fuel ds t1 (OCall 0 q)) as [t2 a]. cbn [fst snd] in *.
+  specialize (IH t2 ltac:(lia)). destruct (client cf fuel ds t2 rest) as [t3 out]. cbn [snd] in *.
+  intros [H|H]; [|exact (IH H)].
+  destruct a as [i|r|[| |]]; cbn in H; congruence.
+Qed.
+
+Theorem program_never_hangs cf fuel ds : forall os p,
+  spend (fst p) < fuel -> ~ In 9%Z (outs (snd p)) ->
+  ~ In 9%Z (outs (snd (fst (run_cops (execp fuel ds) cf p os)))).
+Proof.
+  pose proof (stack_mspec fuel ds) as Hm.
+  induction os as [|o rest IH]; intros [t c] Hlt Hno; cbn [run_cops fst snd] in *; [exact Hno|].
+  assert (Hstep : spend (fst (fst (cstep (execp fuel ds) cf (t, c) o))) <= spend t /\
+                  ~ In 9%Z (outs (snd (fst (cstep (execp fuel ds) cf (t, c) o))))).
+  { destruct o as [h|h|h|h|]; cbn [cstep fst snd]; try (split; [lia|exact Hno]).
+    - destruct (nth_error (hs c) h) as [x|]; [|cbn [fst snd]; split; [lia|exact Hno]].
+      pose proof (poll_until_mono (execp fuel ds) spend fuel Hm cf t x) as M.
+      destruct (poll_until (execp fuel ds) cf t x) as [t1 r]. cbn [fst snd outs] in *. split; [lia|exact Hno].
+    - destruct (nth_error (hs c) h) as [x|]; [|cbn [fst snd]; split; [lia|exact Hno]].
+      destruct (crdy c x); [|cbn [fst snd]; split; [lia|exact Hno]].
+      pose proof (ms_mono _ _ _ Hm t (OCall x (Z.of_nat (S (nreq c))))) as M.
+      pose proof (ms_call _ _ _ Hm t x (Z.of_nat (S (nreq c))) Hlt) as C.
+      destruct (execp fuel ds t (OCall x (Z.of_nat (S (nreq c))))) as [t1 a]. cbn [fst snd outs] in *.
+      split; [lia|]. intros [H|H]; [|exact (Hno H)]. destruct a as [i|r|[| |]]; cbn in H; congruence.
+    - destruct (nth_error (hs c) h) as [x|]; [|cbn [fst snd]; split; [lia|exact Hno]].
+      pose proof (ms_mono _ _ _ Hm t (OClone x)) as M.
+      destruct (execp fuel ds t (OClone x)) as [t1 a]. cbn [fst snd] in *.
+      destruct a; cbn [fst snd outs]; split; try lia; exact Hno.
+    - destruct (nth_error (hs c) h); cbn [fst snd]; split; try lia; exact Hno. }
+  destruct (cstep (execp fuel ds) cf (t, c) o) as [p1 z]. cbn [fst snd] in *.
+  destruct Hstep as [S1 S2]. specialize (IH p1 ltac:(lia) S2).
+  destruct (run_cops (execp fuel ds) cf p1 rest) as [p2 zs]. exact IH.
+Qed.
+
+(* the fuel run_script uses (modes 1 and 3: one more than the number of scripted answers) is
+   large enough: no request of any mode-1 / mode-3 script hangs in the model *)
+Corollary run_protocol_never_hangs cf ds orc reqs :
+  ~ In 9%Z (snd (client cf (S (length orc)) ds (init_stack ds (init_base orc)) reqs)).
+Proof. apply client_never_hangs. unfold spend, bpend, init_stack. cbn. lia. Qed.
+
+Corollary run_program_never_hangs cf ds po os :
+  ~ In 9%Z (outs (snd (fst (run_cops (execp (S (length (concat po))) ds) cf
+                                    (init_stack ds (init_base_p po), init_c) os)))).
+Proof. apply program_never_hangs; [unfold spend, bpend, init_stack; cbn; lia|cbn; tauto]. Qed.
+
+(* ------------------------------------------------------------------------- *)
+(* (B) transparency: layers that pass through compose, and the stack's result is the inner
+   result wrapped by the fold of the layers' pass-through wrappers, outermost first *)
+Section Passes.
+  Context {E : Type}.
+
+  Lemma wrap_out_comp (w1 w2 : E -> E) (o : outcome E) :
+    wrap_out w1 (wrap_out w2 o) = wrap_out (fun e => w1 (w2 e)) o.
+  Proof. destruct o; reflexivity. Qed.
+
+  Lemma wrap_out_ext (w1 w2 : E -> E) (o : outcome E) :
+    (forall e, w1 e = w2 e) -> wrap_out w1 o = wrap_out w2 o.
+  Proof. intros H. destruct o; cbn; [reflexivity|rewrite H; reflexivity]. Qed.
+
+  Theorem stack_passes (st : list (layer_sem E * (E -> E))) :
+    Forall (fun p => passes (snd p) (fst p)) st ->
+    forall inner req,
+      calls (stack_sem (map fst st) inner req) = calls (inner req) /\
+      result (stack_sem (map fst st) inner req) = wrap_out (wraps (map snd st)) (result (inner req)).
+  Proof.
+    induction 1 as [|[L w] rest HL Hrest IH]; intros inner req; cbn [map stack_sem fold_right wraps].
+    - split; [reflexivity|]. destruct (result (inner req)); reflexivity.
+    - cbn [fst snd] in *. destruct (HL (stack_sem (map fst rest) inner) req) as [H1 H2].
+      destruct (IH inner req) as [I1 I2].
+      unfold stack_sem in *. split; [congruence|].
+      rewrite H2, I2, wrap_out_comp. reflexivity.
+  Qed.
+
+  Lemma pass_through_passes (w : E -> E) : passes w (pass_through w).
+  Proof. intros inner req. split; reflexivity. Qed.
+
+  (* a stack of passing layers is itself a passing layer (stacks nest) *)
+  Corollary stack_is_passing (st : list (layer_sem E * (E -> E))) :
+    Forall (fun p => passes (snd p) (fst p)) st ->
+    passes (wraps (map snd st)) (stack_sem (map fst st)).
+  Proof. intros H inner req. apply stack_passes. exact H. Qed.
+End Passes.
+
+(* ------------------------------------------------------------------------- *)
+(* (C) listeners only observe. [run_steps] COMPUTES the outcome of a call path through the
+   listener invocations: a panic that escapes an invocation ends the run with FPanic. *)
+Lemma emit_g_guarded ls ev :
+  emit_g true ls ev = (map (fun l => l ev) ls, false).
+Proof.
+  induction ls as [|l rest IH]; cbn [emit_g map]; [reflexivity|].
+  rewrite IH. destruct (l ev); reflexivity.
+Qed.
+
+(* what the listeners are handed, event by event *)
+Fixpoint deliveries_of (ls : list listener) (steps : list lstep) : list (Z * list lresult) :=
+  match steps with
+  | [] => []
+  | SEmit ev :: rest => (ev, map (fun l => l ev) ls) :: deliveries_of ls rest
+  | SOut _ _ :: rest => deliveries_of ls rest
+  end.
+
+(* the outcome the call path fixes by itself *)
+Fixpoint final_of (steps : list lstep) (cur : final) : final :=
+  match steps with
+  | [] => cur
+  | SOut k p :: rest => final_of rest (FOut k p)
+  | SEmit _ :: rest => final_of rest cur
+  end.
+
+Lemma run_steps_guarded ls : forall steps cur acc,
+  run_steps true ls steps cur acc = (final_of steps cur, rev acc ++ deliveries_of ls steps).
+Proof.
+  induction steps as [|s rest IH]; intros cur acc; cbn [run_steps final_of deliveries_of].
+  - rewrite app_nil_r. reflexivity.
+  - destruct s as [ev|k p].
+    + rewrite emit_g_guarded. rewrite IH. cbn [rev]. rewrite <- app_assoc. reflexivity.
+    + apply IH.
+Qed.
+
+(* whatever the listeners do -- return, panic, any subset of them, any number of them -- the
+   outcome of a call whose listener invocations go through EventListeners::emit is the outcome
+   the call path fixes by itself *)
+Theorem listeners_cannot_change_outcome ls steps cur :
+  fst (run_steps true ls steps cur []) = final_of steps cur.
+Proof. rewrite run_steps_guarded. reflexivity. Qed.
+
+Corollary outcome_independent_of_listeners ls1 ls2 steps cur :
+  fst (run_steps true ls1 steps cur []) = fst (run_steps true ls2 steps cur []).
+Proof. rewrite !listeners_cannot_change_outcome. reflexivity. Qed.
+
+(* ... and every listener is handed every event, whatever the others did with it *)
+Theorem every_listener_gets_every_event ls steps cur :
+  snd (run_steps true ls steps cur []) = deliveries_of ls steps /\
+  (forall ev, In (SEmit ev) steps -> In (ev, map (fun l => l ev) ls) (deliveries_of ls steps)) /\
+  (forall ev i l, nth_error ls i = Some l -> nth_error (map (fun l => l ev) ls) i = Some (l ev)).
+Proof.
+  split; [rewrite run_steps_guarded; reflexivity|]. split.
+  - intros ev. induction steps as [|s rest IH]; intros Hin; [destruct Hin|].
+    destruct Hin as [->|Hin]; cbn [deliveries_of]; [left; reflexivity|].
+    destruct s; [right|]; apply IH; exact Hin.
+  - intros ev i l H. exact (map_nth_error (fun l0 : listener => l0 ev) i ls H).
+Qed.
+
+Fixpoint emits (ev : Z) (steps : list lstep) : nat :=
+  match steps with
+  | [] => O
+  | SEmit e :: rest => (if Z.eqb e ev then 1 else 0) + emits ev rest
+  | SOut _ _ :: rest => emits ev rest
+  end.
+
+(* per kind, in absolute numbers: a registered listener is invoked exactly once per emitted event *)
+Theorem per_kind_counts ls steps cur i l ev :
+  nth_error ls i = Some l -> (forall e, l e <> Skipped) ->
+  count_kind i ev (snd (run_steps true ls steps cur [])) = Z.of_nat (emits ev steps).
+Proof.
+  intros Hi Hl. rewrite run_steps_guarded. cbn [snd rev app]. unfold count_kind. f_equal.
+  induction steps as [|s rest IH]; [reflexivity|].
+  destruct s as [e|k p]; cbn [deliveries_of emits filter fst snd]; [|exact IH].
+  rewrite (map_nth_error (fun l0 => l0 e) i ls Hi).
+  assert (Hinv : invoked (Some (l e)) = true) by (specialize (Hl e); destruct (l e); [reflexivity|reflexivity|congruence]).
+  rewrite Hinv, andb_true_r. destruct (Z.eqb e ev); cbn [length]; rewrite IH; reflexivity.
+Qed.
+
+(* the same call path with BARE callback invocations (no catch_unwind: reconnect's
+   on_state_change / on_reconnect before fix 484f229): the clause is false. A state-change
+   observer that panics after the inner call has answered Ok(70) turns the call into a panic, and
+   the listener behind it never sees the event. *)
+Theorem bare_callbacks_refuted :
+  let ls := [(fun _ => Panics); (fun _ => Returns)] in
+  let steps := [SOut 0 70; SEmit 0] in
+  fst (run_steps false ls steps (FOut 0 0) []) = FPanic /\
+  final_of steps (FOut 0 0) = FOut 0 70 /\
+  count_kind 1 0 (snd (run_steps false ls steps (FOut 0 0) [])) = 0%Z /\
+  count_kind 1 0 (snd (run_steps true ls steps (FOut 0 0) [])) = 1%Z.
+Proof. cbn. repeat split; reflexivity. Qed.
